@@ -150,7 +150,7 @@ def prune_build_cache(keep_hash=None):
     if not os.path.isdir(BUILD):
         return
     entries = sorted(((os.path.getmtime(os.path.join(BUILD, e)), e) for e in os.listdir(BUILD)), reverse=True)
-    for _, e in entries[400:]:
+    for _, e in entries[160:]:
         shutil.rmtree(os.path.join(BUILD, e), ignore_errors=True)
 
 
